@@ -22,7 +22,7 @@ static const jwk_item_t *PRIV_B[NKEY], *PUB_B[NKEY];	/* private copy for the seq
 static const jwk_item_t *PRIV_S[NKEY], *PUB_S[NKEY];	/* the shared keyring: first touched by the concurrent phase */
 static const jwk_item_t **PRIV = PRIV_B, **PUB = PUB_B;	/* switched only while no worker thread exists */
 static jwk_set_t *basering, *kidring_b;
-static char *TOK_OK[NKEY], *TOK_BAD[NKEY], *TOK_EXPIRED[NKEY], *TOK_KID[NKEY];
+static char *TOK_OK[NKEY], *TOK_BAD[NKEY], *TOK_EXPIRED[NKEY], *TOK_KID[NKEY], *TOK_UNK[NKEY];
 static jwk_set_t *kidring;		/* second shared keyring: public keys with kid "k<i>", looked up from callbacks */
 
 typedef struct { int kind; int key; int variant; } op_t;	/* kind 0 generate, 1 verify, 2 verify with a callback that finds the key by kid in the shared keyring */
@@ -97,7 +97,7 @@ static void run_op(const op_t *op, result_t *res, int thread_id, int opno)
 		res->tok = NULL;
 		if (c) {
 			jwt_checker_setcb(c, kid_cb, NULL);
-			res->rc = jwt_checker_verify(c, op->variant % 3 == 1 ? TOK_BAD[op->key] : TOK_KID[op->key]) ? 1 : 0;
+			res->rc = jwt_checker_verify(c, op->variant % 3 == 1 ? TOK_BAD[op->key] : op->variant % 3 == 2 ? TOK_UNK[op->key] : TOK_KID[op->key]) ? 1 : 0;
 			jwt_checker_free(c);
 		} else res->rc = 1;
 	} else {
@@ -165,6 +165,10 @@ int main(int argc, char **argv)
 			free(jwk);
 			snprintf(hk, sizeof(hk), "{\"alg\":\"%s\",\"kid\":\"%s\"}", vh_alg_name(KALG[k]), kid);
 			TOK_KID[k] = vh_ref_token(&K[k], KALG[k], hk, "{\"iss\":\"c18\"}");
+			/* and a token that names a key nobody has: the look-up misses, the callback refuses (a refusal must not leave anything in
+			 * the shared keyring either) */
+			snprintf(hk, sizeof(hk), "{\"alg\":\"%s\",\"kid\":\"nobody-%d\"}", vh_alg_name(KALG[k]), k);
+			TOK_UNK[k] = vh_ref_token(&K[k], KALG[k], hk, "{\"iss\":\"c18\"}");
 		}
 	}
 	for (int rep = 0; rep < repeats; rep++) {
@@ -252,7 +256,7 @@ int main(int argc, char **argv)
 		free(T); free(tid);
 	}
 	jwks_free(basering); jwks_free(kidring_b);
-	for (int k = 0; k < NKEY; k++) { free(TOK_OK[k]); free(TOK_BAD[k]); free(TOK_EXPIRED[k]); free(TOK_KID[k]); vh_key_free(&K[k]); }
+	for (int k = 0; k < NKEY; k++) { free(TOK_OK[k]); free(TOK_BAD[k]); free(TOK_EXPIRED[k]); free(TOK_KID[k]); free(TOK_UNK[k]); vh_key_free(&K[k]); }
 	printf("[\"END\"]\n");
 	return 0;
 }
